@@ -123,75 +123,82 @@ func runC18(rc *sim.RunCtx) {
 	for di, d := range docs {
 		for _, ds := range []string{"candidate", "running"} {
 			for _, combo := range xmlCombosList {
-				for _, cs := range c18cases(ds) {
-					cfg := &config.SBI{Type: "netconf", Address: "127.0.0.1", Port: 1, ConnectRetry: 24 * time.Hour, Timeout: time.Second,
-						NetconfOptions: &config.SBINetconfOptions{IncludeNS: combo.ns, OperationWithNamespace: combo.opns, UseOperationRemove: combo.remove, CommitDatastore: ds}}
-					drv := world.NewNCDriver(nil)
-					drv.Fault = func(call string, n int) string { return cs.faults[fmt.Sprintf("%s#%d", call, n)] }
-					tgt := target.VerifNewNCTarget("dev", cfg, scb, drv)
-					_, err := tgt.Set(ctx, &docSource{xml: d.xml})
-					rc.Step()
-					rc.Fault(cs.name)
-					doc := d.xml[comboName(combo.ns, combo.opns, combo.remove)]
-					empty := strings.TrimSpace(doc) == ""
-					calls := strings.Join(drv.Calls, ",")
-					calls = strings.ReplaceAll(calls, ",close", "")
-					rc.SigAdd(fmt.Sprintf("%s|%s|%s|%t|%s", ds, cs.name, d.kind, empty, calls))
-					rc.NonTrivial()
-					f := map[string]string{"datastore": ds, "case": cs.name, "doc": d.kind, "combo": comboName(combo.ns, combo.opns, combo.remove), "calls": calls}
-					rc.Logf("C18 doc#%d %s %s %s %s -> calls=[%s] err=%t", di, d.kind, ds, f["combo"], cs.name, calls, err != nil)
-					rep := func(clause, detail string) {
-						rc.Report(sim.Item{Prop: "C18", Clause: clause, Fields: f, Detail: detail + " (driver calls: " + calls + ")"})
-					}
-					if empty {
-						if len(drv.Calls) != 0 {
-							rep("C18.empty-document-sent", "there is no change but the driver was called")
+				for _, cs0 := range c18cases(ds) {
+					for _, warn := range []bool{false, true} {
+						cs := cs0
+						if warn {
+							cs.name += "+edit-warning"
 						}
-						if err != nil {
-							rep("C18.empty-document-error", "no change must not fail: "+normErr(err))
+						cfg := &config.SBI{Type: "netconf", Address: "127.0.0.1", Port: 1, ConnectRetry: 24 * time.Hour, Timeout: time.Second,
+							NetconfOptions: &config.SBINetconfOptions{IncludeNS: combo.ns, OperationWithNamespace: combo.opns, UseOperationRemove: combo.remove, CommitDatastore: ds}}
+						drv := world.NewNCDriver(nil)
+						drv.WarnOnEdit = warn
+						drv.Fault = func(call string, n int) string { return cs.faults[fmt.Sprintf("%s#%d", call, n)] }
+						tgt := target.VerifNewNCTarget("dev", cfg, scb, drv)
+						_, err := tgt.Set(ctx, &docSource{xml: d.xml})
+						rc.Step()
+						rc.Fault(cs.name)
+						doc := d.xml[comboName(combo.ns, combo.opns, combo.remove)]
+						empty := strings.TrimSpace(doc) == ""
+						calls := strings.Join(drv.Calls, ",")
+						calls = strings.ReplaceAll(calls, ",close", "")
+						rc.SigAdd(fmt.Sprintf("%s|%s|%s|%t|%s", ds, cs.name, d.kind, empty, calls))
+						rc.NonTrivial()
+						f := map[string]string{"datastore": ds, "case": cs.name, "doc": d.kind, "combo": comboName(combo.ns, combo.opns, combo.remove), "calls": calls}
+						rc.Logf("C18 doc#%d %s %s %s %s -> calls=[%s] err=%t", di, d.kind, ds, f["combo"], cs.name, calls, err != nil)
+						rep := func(clause, detail string) {
+							rc.Report(sim.Item{Prop: "C18", Clause: clause, Fields: f, Detail: detail + " (driver calls: " + calls + ")"})
 						}
-						continue
-					}
-					switch {
-					case cs.name == "ok" && ds == "candidate":
-						if err != nil {
-							rep("C18.success-reported-as-error", normErr(err))
-						}
-						if calls != "edit-config(candidate),commit" {
-							rep("C18.success-sequence", "expected exactly edit-config(candidate) then commit")
-						}
-					case cs.name == "ok" && ds == "running":
-						if err != nil {
-							rep("C18.success-reported-as-error", normErr(err))
-						}
-						if calls != "edit-config(running)" {
-							rep("C18.success-sequence", "expected exactly one edit-config(running)")
-						}
-					default:
-						if err == nil {
-							rep("C18.failure-not-reported", "the driver failed but Set returned success")
-						}
-						if strings.Count(calls, "commit") > 0 && strings.HasPrefix(cs.name, "edit-") {
-							rep("C18.commit-after-edit-failure", "commit was sent although edit-config failed")
-						}
-						if strings.Count(calls, "edit-config") != 1 || strings.Count(calls, "commit") > 1 {
-							rep("C18.repeated-call", "edit-config / commit must not be repeated")
-						}
-						if ds == "candidate" && !drv.Dead {
-							// connection alive: the candidate must have been discarded before the error is returned,
-							// unless the discard itself was made to fail
-							discardFails := strings.Contains(cs.name, "discard-")
-							if !strings.Contains(calls, "discard") {
-								rep("C18.no-discard", "edit-config or commit failed on a live connection and no discard-changes was sent before returning the error")
-							} else if !discardFails && len(drv.Pending) != 0 {
-								rep("C18.leftover-candidate", "candidate still holds uncommitted edits after the failure")
+						if empty {
+							if len(drv.Calls) != 0 {
+								rep("C18.empty-document-sent", "there is no change but the driver was called")
 							}
-							if !discardFails && !strings.Contains(calls, "discard") && len(drv.Pending) != 0 {
-								rep("C18.leftover-candidate", "candidate still holds uncommitted edits after the failure")
+							if err != nil {
+								rep("C18.empty-document-error", "no change must not fail: "+normErr(err))
 							}
+							continue
 						}
-						if ds == "running" && strings.Contains(calls, "commit") {
-							rep("C18.commit-on-running", "direct-to-running target must not commit")
+						switch {
+						case cs0.name == "ok" && ds == "candidate":
+							if err != nil {
+								rep("C18.success-reported-as-error", normErr(err))
+							}
+							if calls != "edit-config(candidate),commit" {
+								rep("C18.success-sequence", "expected exactly edit-config(candidate) then commit")
+							}
+						case cs0.name == "ok" && ds == "running":
+							if err != nil {
+								rep("C18.success-reported-as-error", normErr(err))
+							}
+							if calls != "edit-config(running)" {
+								rep("C18.success-sequence", "expected exactly one edit-config(running)")
+							}
+						default:
+							if err == nil {
+								rep("C18.failure-not-reported", "the driver failed but Set returned success")
+							}
+							if strings.Count(calls, "commit") > 0 && strings.HasPrefix(cs.name, "edit-") {
+								rep("C18.commit-after-edit-failure", "commit was sent although edit-config failed")
+							}
+							if strings.Count(calls, "edit-config") != 1 || strings.Count(calls, "commit") > 1 {
+								rep("C18.repeated-call", "edit-config / commit must not be repeated")
+							}
+							if ds == "candidate" && !drv.Dead {
+								// connection alive: the candidate must have been discarded before the error is returned,
+								// unless the discard itself was made to fail
+								discardFails := strings.Contains(cs.name, "discard-")
+								if !strings.Contains(calls, "discard") {
+									rep("C18.no-discard", "edit-config or commit failed on a live connection and no discard-changes was sent before returning the error")
+								} else if !discardFails && len(drv.Pending) != 0 {
+									rep("C18.leftover-candidate", "candidate still holds uncommitted edits after the failure")
+								}
+								if !discardFails && !strings.Contains(calls, "discard") && len(drv.Pending) != 0 {
+									rep("C18.leftover-candidate", "candidate still holds uncommitted edits after the failure")
+								}
+							}
+							if ds == "running" && strings.Contains(calls, "commit") {
+								rep("C18.commit-on-running", "direct-to-running target must not commit")
+							}
 						}
 					}
 				}
@@ -207,7 +214,7 @@ var xmlCombosList = []struct {
 func init() {
 	Register(&sim.Check{
 		ID: "C18", Level: "fault_enumeration", Run: runC18, NoBubble: true,
-		Rule:         "per run: a short generated history is executed on the direct device which captures the 8 XML change documents of every Set (real tree, real ToXML); for up to 3 (thorough 8) of these documents plus the empty one, the real ncTarget.Set is driven around an in-process netconf.Driver for both commit-datastore settings x the 8 option combinations x every failure point of the driver call sequence (edit-config rpc-error, edit-config EOF, commit error, commit EOF, each combined with a failing or dying discard) - this finite space is enumerated completely per document. Oracle over the recorded driver calls and the fake device's candidate. Distinct = (datastore, failure case, document kind, call sequence).",
+		Rule:         "per run: a short generated history is executed on the direct device which captures the 8 XML change documents of every Set (real tree, real ToXML); for up to 3 (thorough 8) of these documents plus the empty one, the real ncTarget.Set is driven around an in-process netconf.Driver for both commit-datastore settings x the 8 option combinations x every failure point of the driver call sequence (edit-config rpc-error, edit-config EOF, commit error, commit EOF, each combined with a failing or dying discard, each with and without rpc-error warnings in the edit-config reply) - this finite space is enumerated completely per document. Oracle over the recorded driver calls and the fake device's candidate. Distinct = (datastore, failure case, document kind, call sequence).",
 		Real:         []string{"pkg/datastore/target/nc.go (Set, setCandidate, setRunning) via VerifNewNCTarget", "pkg/tree ToXML on trees built by the real transaction pipeline", "pkg/datastore, pkg/tree, cache, schema store (to produce the documents)"},
 		Stub:         []string{"netconf.Driver (in-process, records calls, candidate/running as lists of accepted edits, per-call failure injection)", "reconnect() after a dead connection dials 127.0.0.1:1 and then sleeps 24h (real goroutine, not judged)"},
 		Assume:       []string{"an edit-config that errors leaves its target datastore unchanged (atomic edit)", "runs outside the synctest bubble because reconnect() dials a real socket"},
